@@ -338,6 +338,9 @@ int32_t jls_twr_signal_def(struct jls_twr_s * self, const struct jls_signal_def_
 
 int32_t jls_twr_user_data(struct jls_twr_s * self, uint16_t chunk_meta,
                           enum jls_storage_type_e storage_type, const uint8_t * data, uint32_t data_size) {
+    if (((uint32_t) storage_type) > UINT8_MAX) {
+        return JLS_ERROR_PARAMETER_INVALID;  // does not fit the message field: would arrive as another storage type
+    }
     if ((JLS_STORAGE_TYPE_STRING == storage_type) || (JLS_STORAGE_TYPE_JSON == storage_type)) {
         if (NULL == data) {
             return JLS_ERROR_PARAMETER_INVALID;
@@ -377,7 +380,11 @@ int32_t jls_twr_fsr(struct jls_twr_s * self, uint16_t signal_id,
     } else if (0 == self->fsr_entry_size_bits[signal_id]) {
         return JLS_ERROR_NOT_FOUND;  // not a defined FSR signal: the sample size is unknown
     }
-    uint32_t length = (uint32_t) ((((uint64_t) data_length) * self->fsr_entry_size_bits[signal_id] + 7) / 8);
+    uint64_t length64 = ((((uint64_t) data_length) * self->fsr_entry_size_bits[signal_id] + 7) / 8);
+    if (length64 > (UINT32_MAX - sizeof(struct msg_header_s))) {
+        return JLS_ERROR_PARAMETER_INVALID;  // the message size is a uint32_t: do not queue a truncated payload
+    }
+    uint32_t length = (uint32_t) length64;
     int32_t rc;
     if (self->flags & JLS_TWR_FLAG_DROP_ON_OVERFLOW) {
         rc = msg_send_inner(self, &hdr, (const uint8_t *) data, length);
@@ -416,6 +423,9 @@ int32_t jls_twr_annotation(struct jls_twr_s * self, uint16_t signal_id, int64_t 
                            uint8_t group_id,
                            enum jls_storage_type_e storage_type,
                            const uint8_t * data, uint32_t data_size) {
+    if ((((uint32_t) storage_type) > UINT8_MAX) || (((uint32_t) annotation_type) > UINT8_MAX)) {
+        return JLS_ERROR_PARAMETER_INVALID;  // do not fit the message fields: would arrive as other enum values
+    }
     if ((JLS_STORAGE_TYPE_STRING == storage_type) || (JLS_STORAGE_TYPE_JSON == storage_type)) {
         if (NULL == data) {
             return JLS_ERROR_PARAMETER_INVALID;
